@@ -186,6 +186,21 @@ PANIC_PATHS = (
 
 ORD_NAME = "std::cmp::Ordering"
 
+STRICT = True
+BENIGN_PREFIXES = ("core::fmt", "std::fmt", "alloc::fmt", "std::io::_print", "std::io::_eprint", "std::io::stdio", "log::", "core::mem::drop", "std::mem::drop",
+                   "core::mem::forget", "std::mem::forget", "core::hint::", "std::hint::", "core::panic::Location", "std::panic::Location")
+
+
+def benign_opaque(fn):
+    p = fn.get("path", "")
+    rp = fn.get("rpath") or ""
+    k = fn.get("key", "")
+    if p.startswith(BENIGN_PREFIXES) or rp.startswith(BENIGN_PREFIXES) or "log::" in k:
+        return True
+    if p.split("::")[-1] in ("fmt",) and "fmt::" in (fn.get("trait") or ""):
+        return True
+    return False
+
 
 class Frame:
     __slots__ = ("body", "locals", "depth")
@@ -202,6 +217,9 @@ class Interp:
         self.mono = mono
         self.h = harness
         self.steps = 0
+        self.unmodelled = []
+        if harness is not None:
+            harness.interp = self
         self.trace = []      # (callee path, args, site line, caller path)
         self.events = []     # free-form events from models (push, remove, …)
         self.ub = []         # overflow-shift style events
@@ -775,12 +793,17 @@ class Interp:
                     # closure bodies take the tupled arguments spread
                     return self.call_body(body, [args[0]] + list(args[1].fields), depth + 1)
             return self.call_body(body, args, depth + 1)
-        # 4. opaque
+        # 4. nobody models this callee.  Continuing with an opaque value could make a later comparison with the
+        #    specification fail for the wrong reason, so the run is INCONCLUSIVE unless the call is benign.
         tg = frozenset()
         for a in args:
             tg = tg | tags_of(a)
         if self.h is not None:
             self.h.note_opaque_call(self, fn, args, term, caller)
+        if not benign_opaque(fn):
+            self.unmodelled.append(fn.get("rpath") or path)
+            if STRICT:
+                raise Unsupported("call to %s is neither modelled nor interpretable (at %s)" % (fn.get("key") or path, self.facts.site(caller, site)))
         return self.abstract_of(dest_ty, tg, {"call": path})
 
     def find_body(self, fn):
